@@ -103,15 +103,16 @@ def stored_state_present(obj: dict, diffbase: str = 'annotations') -> bool:
         st = obj.get('status')
         kopf_st = st.get('kopf') if isinstance(st, dict) else None
         return isinstance(kopf_st, dict) and kopf_st.get('last-handled-configuration') is not None
-    anns = obj.get('metadata', {}).get('annotations')
-    return isinstance(anns, dict) and anns.get(LAST) is not None
+    anns = obj.get('metadata', {}).get('annotations')     # (ReplicaSets owned by Deployments use the key with '-ofDRS')
+    return isinstance(anns, dict) and any(k in (LAST, LAST + '-ofDRS') and v is not None for k, v in anns.items())
 
 
 def patch_stores_state(patch: dict, diffbase: str = 'annotations') -> bool:
     if diffbase == 'status':
         v = patch.get('status', {}).get('kopf', {}) if isinstance(patch.get('status'), dict) else {}
         return isinstance(v, dict) and v.get('last-handled-configuration') is not None
-    return (patch.get('metadata', {}).get('annotations', {}) or {}).get(LAST) is not None
+    anns = patch.get('metadata', {}).get('annotations', {}) or {}
+    return any(k in (LAST, LAST + '-ofDRS') and v is not None for k, v in anns.items())
 
 
 def spec_reason(gone: bool, marked: bool, held: bool, never_handled: bool, changed: bool, first_sight: bool) -> str:
